@@ -25,6 +25,8 @@ package bttest
 //@   requires rowOK(r)
 //@   requires famSep(r.Families)
 //@   requires rowDesc(r)
+//@   requires btReadEpoch == epoch
+//@   requires btReadRow == obj(r)
 //@   modifies r.Families, elems(r.Families), heap("F:bigtablepb.Family.Columns"), heap("T:*bigtablepb.Column")
 //@   ensures rowOK(r)
 //@   ensures rowDesc(r)
@@ -78,6 +80,19 @@ package bttest
 //@   loop 1 invariant rowOK(r)
 //@   loop 1 invariant famSep(r.Families)
 //@   loop 1 invariant rowDesc(r)
+//@   loop 1 invariant colSep(r)
+//@   loop 1 invariant forall rr *btpb.Row :: rr != r && !fresh(rr) ==> rr.Families == old(rr.Families)
+// cuts (checked, then known): the row invariants after each helper call of the SetCell path
+//@   callsite getOrCreateFamily ensures rowOK(r) && famSep(r.Families)
+//@   callsite getOrCreateFamily ensures rowDesc(r)
+//@   callsite getOrCreateFamily ensures colSep(r)
+//@   callsite getOrCreateColumn ensures rowOK(r) && famSep(r.Families)
+//@   callsite getOrCreateColumn ensures rowDesc(r)
+//@   callsite getOrCreateColumn ensures colSep(r)
+// cuts for the in-place compaction of the DeleteFromColumn path
+//@   callsite builtin.copy ensures cellsOK(cs)
+//@   callsite builtin.copy ensures descTS(cs[:len(cs)-(ei-si)])
+//@   callsite builtin.copy ensures rowOK(r)
 
 // ---------------------------------------------------------------------------------------------
 // RPC handlers (entry points: req is wire-decoded and non-nil; no lock is held on entry)
@@ -93,6 +108,7 @@ package bttest
 //@   requires s.clock != nil
 //@   requires nolocks()
 //@   modifies heap("F:bigtablepb.Row.Families"), heap("T:*bigtablepb.Family"), heap("F:bigtablepb.Family.Columns"), heap("T:*bigtablepb.Column"), heap("F:bigtablepb.Column.Cells"), heap("T:*bigtablepb.Cell"), heap("F:bttest.table.lastWriteNanos"), heap("T:int64")
+//@   modifies ghost(btReadEpoch), ghost(btReadRow)
 //@   ensures (result0 == nil) <==> (result1 != nil)
 //@   ensures !old(req.TableName in s.tables) ==> result1 != nil && uf_grpcCode(result1) == codes.NotFound
 //@   ensures nolocks()
@@ -104,6 +120,7 @@ package bttest
 //@   requires s.clock != nil
 //@   requires nolocks()
 //@   modifies heap("F:bigtablepb.Row.Families"), heap("T:*bigtablepb.Family"), heap("F:bigtablepb.Family.Columns"), heap("T:*bigtablepb.Column"), heap("F:bigtablepb.Column.Cells"), heap("T:*bigtablepb.Cell"), heap("F:bttest.table.lastWriteNanos"), heap("T:int64")
+//@   modifies ghost(btReadEpoch), ghost(btReadRow)
 //@   ensures !old(req.TableName in s.tables) ==> result != nil && uf_grpcCode(result) == codes.NotFound
 //@   ensures nolocks()
 //@   loop 1 invariant res != nil && fresh(res) && len(res.Entries) == len(req.Entries) && fresh(res.Entries)
@@ -116,10 +133,15 @@ package bttest
 //@   requires s.clock != nil
 //@   requires nolocks()
 //@   modifies heap("F:bigtablepb.Row.Families"), heap("T:*bigtablepb.Family"), heap("F:bigtablepb.Family.Columns"), heap("T:*bigtablepb.Column"), heap("F:bigtablepb.Column.Cells"), heap("T:*bigtablepb.Cell"), heap("F:bttest.table.lastWriteNanos"), heap("T:int64")
+//@   modifies ghost(btReadEpoch), ghost(btReadRow)
 //@   ensures (result0 == nil) <==> (result1 != nil)
 //@   ensures !old(req.TableName in s.tables) ==> result1 != nil && uf_grpcCode(result1) == codes.NotFound
 //@   ensures result0 != nil ==> fresh(result0)
 //@   ensures nolocks()
+
+// Two rows under construction share no family, no column, and no family / column / cell array (the request row r and
+// the response row of ReadModifyWriteRow are built side by side).
+//@ spec rowsApart(a *btpb.Row, b *btpb.Row) bool = a != b && (obj(a.Families) != obj(b.Families) || obj(a.Families) == 0) && (forall i, k :: 0 <= i < len(a.Families) && 0 <= k < len(b.Families) ==> a.Families[i] != b.Families[k] && (obj(a.Families[i].Columns) != obj(b.Families[k].Columns) || obj(a.Families[i].Columns) == 0)) && (forall i, j, k, l :: 0 <= i < len(a.Families) && 0 <= j < len(a.Families[i].Columns) && 0 <= k < len(b.Families) && 0 <= l < len(b.Families[k].Columns) ==> a.Families[i].Columns[j] != b.Families[k].Columns[l] && (obj(a.Families[i].Columns[j].Cells) != obj(b.Families[k].Columns[l].Cells) || obj(a.Families[i].Columns[j].Cells) == 0))
 
 //@ func (s *server) ReadModifyWriteRow
 //@   property C06 C13
@@ -127,6 +149,7 @@ package bttest
 //@   requires s.clock != nil
 //@   requires nolocks()
 //@   modifies heap("F:bigtablepb.Row.Families"), heap("T:*bigtablepb.Family"), heap("F:bigtablepb.Family.Columns"), heap("T:*bigtablepb.Column"), heap("F:bigtablepb.Column.Cells"), heap("T:*bigtablepb.Cell"), heap("F:bttest.table.lastWriteNanos"), heap("T:int64")
+//@   modifies ghost(btReadEpoch), ghost(btReadRow)
 //@   ensures (result0 == nil) <==> (result1 != nil)
 //@   ensures !old(req.TableName in s.tables) ==> result1 != nil && uf_grpcCode(result1) == codes.NotFound
 //@   ensures result0 != nil ==> fresh(result0) && result0.Row != nil
@@ -134,7 +157,24 @@ package bttest
 //@   loop 1 invariant held(tbl.mu) == 2
 //@   loop 1 invariant rowOK(r) && fresh(r)
 //@   loop 1 invariant famSep(r.Families)
+//@   loop 1 invariant colSep(r)
 //@   loop 1 invariant rowDesc(r)
 //@   loop 1 invariant rowOK(resultRow) && fresh(resultRow)
 //@   loop 1 invariant famSep(resultRow.Families)
-//@   loop 1 invariant r != resultRow
+//@   loop 1 invariant colSep(resultRow)
+//@   loop 1 invariant rowsApart(r, resultRow)
+// cuts: the same facts after each helper call (checked, then known)
+//@   callsite getOrCreateFamily ensures rowOK(r) && famSep(r.Families)
+//@   callsite getOrCreateFamily ensures colSep(r)
+//@   callsite getOrCreateFamily ensures rowDesc(r)
+//@   callsite getOrCreateFamily ensures rowOK(resultRow) && famSep(resultRow.Families)
+//@   callsite getOrCreateFamily ensures colSep(resultRow)
+//@   callsite getOrCreateFamily ensures rowsApart(r, resultRow)
+//@   callsite getOrCreateColumn ensures rowOK(r) && famSep(r.Families)
+//@   callsite getOrCreateColumn ensures colSep(r)
+//@   callsite getOrCreateColumn ensures rowDesc(r)
+//@   callsite getOrCreateColumn ensures rowOK(resultRow) && famSep(resultRow.Families)
+//@   callsite getOrCreateColumn ensures colSep(resultRow)
+//@   callsite getOrCreateColumn ensures rowsApart(r, resultRow)
+// C13, per rule: the cell written for a rule carries max(clock truncated to ms, newest timestamp of that column)
+//@   callsite appendOrReplaceCell requires arg1 != nil && arg1.TimestampMicros == (len(arg0) > 0 ? max(truncMs(now), arg0[0].TimestampMicros) : truncMs(now))
